@@ -116,7 +116,7 @@ func alphabet(kind string, level, depth, pos, total int) []string {
 	}
 	ops = append(ops, "tidy", "reset")
 	if kind == "buffer" {
-		nsz := [][]int{{0, 1, 2, 100}, {1, 100}, {2}}[level]
+		nsz := [][]int{{0, 1, 2, 100, math.MaxInt}, {1, 100}, {2}}[level]
 		for _, n := range nsz {
 			ops = append(ops, fmt.Sprintf("next %d", n))
 		}
@@ -233,6 +233,9 @@ func randomSeq(c *hx.Ctx, kind string, maxLen int, offDomain bool) string {
 				op = fmt.Sprintf("read %d", pickSize(c, []int{unread - 1, unread, unread + 1, 100}, 150))
 			case r < 60:
 				sz := pickSize(c, []int{unread - 1, unread, unread + 1, 100}, 150)
+				if c.Rng.Intn(10) == 0 { // sizes near MaxInt: off+n must not be computed in int
+					sz = c.Rng.Pick([]int{math.MaxInt, math.MaxInt - 1, math.MaxInt - pos, math.MaxInt - pos + 1, math.MaxInt / 2})
+				}
 				if offDomain && c.Rng.Intn(4) == 0 {
 					sz = c.Rng.Pick([]int{-1, -2, -100, math.MinInt64})
 				}
